@@ -452,50 +452,50 @@ def compare_model(run, sc, tag, subset, msteps, isteps):
     """field-by-field comparison up to (and including the error flag of) the first step with an error"""
     n = min(len(msteps), len(isteps))
     if len(msteps) != len(isteps):
-        run.mismatch("tie:pipeline:steps", {"scenario": sc["id"], "run": tag}, len(isteps), len(msteps))
+        run.mismatch("pipeline:steps", {"scenario": sc["id"], "run": tag}, len(isteps), len(msteps))
     for s in range(n):
         m, im = msteps[s], isteps[s]
         where = {"scenario": sc["id"], "run": tag, "step_index": s, "it": im["it"]}
         if m["it"] != im["it"]:
-            run.mismatch("tie:pipeline:step-number", where, im["it"], m["it"])
+            run.mismatch("pipeline:step-number", where, im["it"], m["it"])
             return s
         if m["err"] != im["err"]:
-            run.mismatch("tie:pipeline:error-flag", where, im["errc"], m["err"])
+            run.mismatch("pipeline:error-flag", where, im["errc"], m["err"])
             return s
         if m["err"]:
             return s          # control flow after cvm::error is outside the model
         if not close(m["E"], im["E"]):
-            run.mismatch("tie:pipeline:energy", where, im["E"], m["E"])
+            run.mismatch("pipeline:energy", where, im["E"], m["E"])
         if len(m["V"]) != len(im["V"]) or len(m["B"]) != len(im["B"]):
-            run.mismatch("tie:pipeline:objects", where, (len(im["V"]), len(im["B"])), (len(m["V"]), len(m["B"])))
+            run.mismatch("pipeline:objects", where, (len(im["V"]), len(im["B"])), (len(m["V"]), len(m["B"])))
             return s
         for i, (mv, iv) in enumerate(zip(m["V"], im["V"])):
             for key in ("act", "rc", "awake", "apply", "arc"):
                 if mv[key] != iv[key]:
-                    run.mismatch("tie:pipeline:var-deps", dict(where, var=i, field=key), iv[key], mv[key])
+                    run.mismatch("pipeline:var-deps", dict(where, var=i, field=key), iv[key], mv[key])
             for key in ("fb", "fba", "f"):
                 if not close(mv[key], iv[key]):
-                    run.mismatch("tie:pipeline:var-force", dict(where, var=i, field=key), iv[key], mv[key])
+                    run.mismatch("pipeline:var-force", dict(where, var=i, field=key), iv[key], mv[key])
             if iv["act"] and not close(mv["x"], iv["x"]):
-                run.mismatch("tie:pipeline:var-value", dict(where, var=i), iv["x"], mv["x"])
+                run.mismatch("pipeline:var-value", dict(where, var=i), iv["x"], mv["x"])
         for q, (mb, ib) in enumerate(zip(m["B"], im["B"])):
             if ib["apply"] != (0 if sc["biases"][subset[q]]["kind"] in ("G", "F") else 1):
-                run.mismatch("tie:pipeline:bias-apply", dict(where, bias=subset[q]), ib["apply"], "per kind")
+                run.mismatch("pipeline:bias-apply", dict(where, bias=subset[q]), ib["apply"], "per kind")
             for key in ("act", "rc", "awake"):
                 if mb[key] != ib[key]:
-                    run.mismatch("tie:pipeline:bias-deps", dict(where, bias=subset[q], field=key), ib[key], mb[key])
+                    run.mismatch("pipeline:bias-deps", dict(where, bias=subset[q], field=key), ib[key], mb[key])
             if not close(mb["E"], ib["E"]):
-                run.mismatch("tie:pipeline:bias-energy", dict(where, bias=subset[q]), ib["E"], mb["E"])
+                run.mismatch("pipeline:bias-energy", dict(where, bias=subset[q]), ib["E"], mb["E"])
             if len(mb["F"]) != len(ib["F"]) or any(not close(a, b) for a, b in zip(mb["F"], ib["F"])):
-                run.mismatch("tie:pipeline:bias-forces", dict(where, bias=subset[q]), ib["F"], mb["F"])
+                run.mismatch("pipeline:bias-forces", dict(where, bias=subset[q]), ib["F"], mb["F"])
             if sc["biases"][subset[q]]["kind"] == "A" and (mb["REF"] is None) != (ib["REF"] is None):
-                run.mismatch("tie:pipeline:abmd-ref", dict(where, bias=subset[q]), ib["REF"], mb["REF"])
+                run.mismatch("pipeline:abmd-ref", dict(where, bias=subset[q]), ib["REF"], mb["REF"])
             elif sc["biases"][subset[q]]["kind"] == "A" and mb["REF"] is not None and not close(mb["REF"], ib["REF"]):
-                run.mismatch("tie:pipeline:abmd-ref", dict(where, bias=subset[q]), ib["REF"], mb["REF"])
+                run.mismatch("pipeline:abmd-ref", dict(where, bias=subset[q]), ib["REF"], mb["REF"])
         ia = atomf(im, sc["natoms"])
         for a in range(sc["natoms"]):
             if any(not close(m["A"][a][q], ia[a][q]) for q in range(3)):
-                run.mismatch("tie:pipeline:atom-forces", dict(where, atom=a), ia[a], m["A"][a])
+                run.mismatch("pipeline:atom-forces", dict(where, atom=a), ia[a], m["A"][a])
     return n
 
 
@@ -718,7 +718,7 @@ def witness_scenarios():
     W.append({"id": 9003, "family": "witness-var-tsf", "natoms": 2, "mass": [1.0, 1.0], "vars": [v2],
               "biases": [{"kind": "H", "tsf": 1, "vars": [0], "k": 1.0, "centers": [0.0]}], "it0": 0,
               "events": steps([1.0, 2.0, 3.0, 4.0]), "A": [0], "B": []})
-    # (4) the delivered total force is exactly zero: the applied force is not subtracted (C08_total_force_coupling_zero_refuted)
+    # (4) the delivered total force is exactly zero: the applied force must still be subtracted (was a defect, repaired)
     vz = {"tsf": 1, "w": 1.0, "extra": ["subtractAppliedForce on", "outputTotalForce on"],
           "comps": [{"main": [0], "ref": [], "axis": 2, "coeff": 1.0, "np": 1, "onesite": True}]}
     W.append({"id": 9004, "family": "coupling", "natoms": 2, "mass": [1.0, 1.0], "vars": [vz],
@@ -761,8 +761,8 @@ def coupling_scenario(r, k):
 
 
 def oracle_coupling(run, sc, R, tfmodel):
-    """O6: TF(t+1) is the engine's own force s_t in all three runs (whenever the delivered force s_t + f_t is not exactly
-    zero: that case is the finding recorded under C04); tie: the extracted tf_trace on (s_t, f_t)"""
+    """O6: TF(t+1) is the engine's own force s_t in all three runs, also when the delivered force s_t + f_t is exactly
+    zero (witness 9004; returns the number of such steps); tie: the extracted tf_trace on (s_t, f_t)"""
     svals = [ev[2][0][2] for ev in sc["events"] if ev[0] == "S"]
     skipped = 0
     for t_, steps in ((t_, R[t_]["steps"]) for t_ in R):
@@ -775,13 +775,9 @@ def oracle_coupling(run, sc, R, tfmodel):
             f = steps[s]["V"][0]["f"]
             got = steps[s + 1]["TF"].get("v0")
             if svals[s] + f == 0.0:
-                # C08_total_force_coupling_zero_refuted (also recorded under C04): nothing is subtracted
+                # delivered force exactly zero: repaired in /repo (guard step_relative > 0 instead of ft.norm2() > 0);
+                # counted, and checked like any other step
                 skipped += 1
-                if got is None or not close(got, svals[s]):
-                    run.violation("pipeline:coupling:zero-total-force",
-                                  "scenario %d run %s: the engine's force at step %d (%r) and the Colvars force (%r) cancel exactly; the total force reported at step %d is %r instead of %r"
-                                  % (sc["id"], t_, s, svals[s], f, s + 1, got, svals[s]), replay_of(sc, {t_: sc["_subsets"][t_]}, {"step_index": s + 1}))
-                continue
             if got is None or not close(got, svals[s]):
                 run.violation("pipeline:coupling:total-force", "scenario %d run %s: total force reported at step %d is %r, the engine's own force at step %d was %r (Colvars applied %r)"
                               % (sc["id"], t_, s + 1, got, s, svals[s], f), replay_of(sc, {t_: sc["_subsets"][t_]}, {"step_index": s + 1}))
@@ -790,7 +786,7 @@ def oracle_coupling(run, sc, R, tfmodel):
         if mt is not None:
             imp = [steps[s]["TF"].get("v0") for s in range(n)]
             if len(mt) < n or any(imp[s] is None or not close(imp[s], mt[s]) for s in range(n)):
-                run.mismatch("tie:pipeline:total-force", {"scenario": sc["id"], "run": t_}, imp, mt[:n])
+                run.mismatch("pipeline:total-force", {"scenario": sc["id"], "run": t_}, imp, mt[:n])
     return skipped
 
 
@@ -881,7 +877,7 @@ def check(run):
                 ci = impl.get(tag)
                 if ci is None or not ci["complete"] or ci["config"] is None or "err=ok" not in ci["config"] \
                    or "nbias=%d" % len(sub) not in ci["config"]:
-                    run.mismatch("tie:pipeline:config", {"scenario": sc["id"], "run": t, "script": "\n".join(scenario_lines(sc, sub, tag))[:3000]},
+                    run.mismatch("pipeline:config", {"scenario": sc["id"], "run": t, "script": "\n".join(scenario_lines(sc, sub, tag))[:3000]},
                                  (ci or {}).get("config"), "accepted, complete run (harness rc=%s %s)" % (rc, err))
                     ok = False
                     continue
@@ -894,7 +890,7 @@ def check(run):
                 isteps = R[t]["steps"]
                 sub = impl_order(sc, sub)
                 if any([b["name"] for b in stp["B"]] != ["b%d" % j for j in sub] for stp in isteps):
-                    run.mismatch("tie:pipeline:bias-order", {"scenario": sc["id"], "run": t}, [b["name"] for b in isteps[0]["B"]], sub)
+                    run.mismatch("pipeline:bias-order", {"scenario": sc["id"], "run": t}, [b["name"] for b in isteps[0]["B"]], sub)
                     continue
                 run.dist("family:" + sc["family"])
                 if tag in mod:
@@ -937,7 +933,7 @@ def check(run):
                 run.sample({"scenario": {kk: vv for kk, vv in sc.items() if not kk.startswith("_")},
                             "script_AB": scenario_lines(sc, sorted(sc["A"] + sc["B"]), "x")[:60]})
     run.cov["correspondence"].update({"scenarios": len(scs), "impulse_windows_checked": windows,
-                                      "coupling_steps_skipped_total_force_exactly_zero": zero_skipped})
+                                      "coupling_steps_with_total_force_exactly_zero": zero_skipped})
 
 
 def replay(path):
